@@ -97,7 +97,31 @@ def _walk(root_comps, path):
     return escaped
 
 
-def execute(ctx, path):
+DERIVE = ["{prev}/..", "{prev}/.", "{dir}/..", "{dir}/.", "{dir}/{name}", "{prev}/{name}/..", "{dir}//..", "{prev}"]
+
+
+def execute_seq(ctx, steps):
+    """History on ONE SFTPServerInterface instance (one per session in production): steps are raw paths or
+    paths derived from the previous canonical result; every result must satisfy the same validity predicate."""
+    from paramiko.sftp_si import SFTPServerInterface
+
+    si = SFTPServerInterface(None)
+    prev = "/"
+    paths = []
+    for st_ in steps:
+        if st_[0] == "raw":
+            path = st_[1]
+        else:
+            d = prev.rsplit("/", 1)[0] or "/"
+            path = DERIVE[st_[1] % len(DERIVE)].format(prev=prev, dir=d if d != "/" else "", name=st_[2])
+        paths.append(path)
+        out = execute(ctx, path, si=si, history=list(paths))
+        if out is None:
+            return
+        prev = out
+
+
+def execute(ctx, path, si=None, history=None):
     from paramiko.sftp_si import SFTPServerInterface
 
     comps_in = path.split("/")
@@ -121,47 +145,59 @@ def execute(ctx, path):
     if "\x00" in path:
         classes.append("nul")
     jcase = {"path": path}
+    if history is not None and len(history) > 1:
+        jcase = {"history": history}
+        classes.append("history:step-%d-on-same-instance" % len(history))
+        nontrivial = True
     ctx.case(jcase, nontrivial, classes)
 
-    si = SFTPServerInterface(None)
+    if si is None:
+        si = SFTPServerInterface(None)
     try:
         out = si.canonicalize(path)
     except Exception as e:
         ctx.violation("canonicalize-raises", type(e).__name__, jcase, repr(e))
-        return
+        return None
     if not isinstance(out, str) or not out.startswith("/"):
         ctx.violation("not-absolute", "relative-input" if not path.startswith("/") else "absolute-input", jcase, "canonicalize(%r) = %r" % (path, out))
-        return
+        return None
     comps = out.split("/")
     for c in comps:
         if c in (".", ".."):
             ctx.violation("dot-component", "%s:%s" % (c, "relative-input" if not path.startswith("/") else "absolute-input"), jcase, "canonicalize(%r) = %r" % (path, out))
-            return
+            return None
     if out not in ("/", "//"):  # POSIX normpath keeps exactly two leading slashes, also for the bare root
         body = out[2:] if (out.startswith("//") and not out.startswith("///")) else out[1:]
         if body == "" or "" in body.split("/"):
             ctx.violation("empty-component", "leading" if out.startswith("///") else "inner-or-trailing", jcase, "canonicalize(%r) = %r" % (path, out))
-            return
+            return None
     for root in ROOTS:
         rc = [c for c in root.split("/") if c]
         joined = root + out
         if _walk(rc, out):
             ctx.violation("escapes-root", "stack-walk", jcase, "root %r + %r" % (root, out))
-            return
+            return None
         try:
             common = os.path.commonpath([root, os.path.normpath(joined)])
         except ValueError as e:
             ctx.violation("escapes-root", "commonpath-raises", jcase, "root %r + %r: %r" % (root, out, e))
-            return
+            return None
         if common != root:
             ctx.violation("escapes-root", "commonpath", jcase, "root %r + %r -> %r, common %r" % (root, out, os.path.normpath(joined), common))
-            return
+            return None
+    return out
 
 
 def run(ctx):
     ctx.set_budget(60, 840)
-    ctx.explore(case_st, lambda c: execute(ctx, c), ctx.scale(8000, 160000))
+    ctx.explore(case_st, lambda c: execute(ctx, c), ctx.scale(5000, 100000))
+    name = st.text(alphabet="ab.", min_size=1, max_size=3)
+    step = st.one_of(st.tuples(st.just("raw"), case_st), st.tuples(st.just("derive"), st.integers(0, len(DERIVE) - 1), name))
+    ctx.explore(st.lists(step, min_size=2, max_size=5), lambda c: execute_seq(ctx, c), ctx.scale(1500, 40000), seed_offset=1)
 
 
 def replay(ctx, case):
-    execute(ctx, case["path"])
+    if "history" in case:
+        execute_seq(ctx, [("raw", p) for p in case["history"]])
+    else:
+        execute(ctx, case["path"])
